@@ -6,6 +6,7 @@ import (
 	"fmt"
 	"strconv"
 	"strings"
+	"time"
 
 	flatbuffers "github.com/google/flatbuffers/go"
 
@@ -27,6 +28,24 @@ func init() {
 
 func vWireOp(t []string) string {
 	switch vStr(t, 1) {
+	case "txnmetrics":
+		// wire txnmetrics max=<n> name=<txn> m=<metrics>: the message as the agent builds it, its metrics decoded by the real
+		// aggregateMetrics into a table of capacity n
+		max, _ := strconv.Atoi(vKVor(t, "max", "0"))
+		msg := protocol.GetRootAsMessage(vBuildTxn("r", t), 0)
+		var tbl flatbuffers.Table
+		if !msg.Data(&tbl) {
+			return "nodata"
+		}
+		var txn protocol.Transaction
+		txn.Init(tbl.Bytes, tbl.Pos)
+		h := &Harvest{Metrics: NewMetricTable(max, time.Now())}
+		aggregateMetrics(txn, h, string(txn.Name()))
+		js, err := h.Metrics.CollectorJSON(AgentRunID("r"), time.Now())
+		if err != nil {
+			return "error"
+		}
+		return fmt.Sprintf("%s dropped=%d", vCanonPayload("metric_data", js), h.Metrics.numDropped)
 	case "reply":
 		st, _ := vKV(t, "state")
 		slotS, _ := vKV(t, "slot")
